@@ -36,6 +36,8 @@ type peerCfg struct {
 	Proto string `json:"proto"`
 	Score int    `json:"score"`
 	Dir   string `json:"dir"`
+	// Direct makes the peer a direct peer of the node before the lifecycle starts (its GRAFTs are refused)
+	Direct bool `json:"direct"`
 }
 
 type event struct {
@@ -48,6 +50,9 @@ type scenario struct {
 	ID     int                `json:"id"`
 	Router string             `json:"router"`
 	By     bool               `json:"by"` // a well-behaved bystander peer "pb" (v1.2, in the mesh) is present
+	// Full: a bootstrapper-style node (D = Dlo = Dhi = Dout = Dscore = 0): every mesh is "full", a GRAFT from a peer
+	// that dialled the node is refused by the Dhi admission check
+	Full bool `json:"full"`
 	Peers  map[string]peerCfg `json:"peers"`
 	Evs    []event            `json:"evs"`
 }
@@ -280,6 +285,8 @@ func (r *run) do(ev event) {
 			w.Do(act(M{"a": "sub", "p": ev.P, "t": "t1", "v": false}))
 		case "graft":
 			w.Do(act(M{"a": "graft", "p": ev.P, "t": "t1"}))
+		case "graftx": // a topic the node has not joined
+			w.Do(act(M{"a": "graft", "p": ev.P, "t": "t3"}))
 		case "prune":
 			w.Do(act(M{"a": "prune", "p": ev.P, "t": "t1"}))
 		case "prunepx":
@@ -353,9 +360,14 @@ func runScenario(t *testing.T, out *vh.Out, s scenario) {
 		cfg.Opts = opts
 		pcs := M{}
 		for n, pc := range s.Peers {
-			pcs[n] = M{"proto": pc.Proto, "score": pc.Score, "dir": pc.Dir}
+			pcs[n] = M{"proto": pc.Proto, "score": pc.Score, "dir": pc.Dir, "direct": pc.Direct}
 		}
-		w := world.New(t, out, s.ID, cfg, M{"c13": true, "by": s.By, "peers": pcs,
+		if s.Full && gs {
+			p := world.SmallParams()
+			p.D, p.Dlo, p.Dhi, p.Dout, p.Dscore = 0, 0, 0, 0, 0
+			cfg.Params = &p
+		}
+		w := world.New(t, out, s.ID, cfg, M{"c13": true, "by": s.By, "full": s.Full, "peers": pcs,
 			"retainMs": retainScore.Milliseconds(), "scoreDecayMs": scoreDecay.Milliseconds(), "gaterRetainMs": gaterRetain.Milliseconds(),
 			"seenTTLMs": seenTTL.Milliseconds(), "slowMs": slowValidate.Milliseconds()})
 		defer w.Close()
@@ -376,6 +388,9 @@ func runScenario(t *testing.T, out *vh.Out, s scenario) {
 			w.Names.AddPeer(f.ID(), n)
 			w.Fakes[n] = f
 			r.app[f.ID()] = float64(s.Peers[n].Score)
+			if s.Peers[n].Direct && gs {
+				w.NUT.AddDirectPeer(peer.AddrInfo{ID: f.ID(), Addrs: f.H.Addrs()})
+			}
 		}
 		// slow validation for messages whose payload starts with 's' (a message still in validation
 		// when its sender disconnects)
